@@ -8,10 +8,10 @@ class Equivalence:
     so that the hash of a link and its complement is the same.
     Thereby, tags are not considered.
     """
-    hash(str(self.from_end)) + \
-    hash(str(self.to_end)) + \
-    hash(str(self.overlap)) + \
-    hash(str(self.overlap.complement()))
+    return hash(str(self.from_end)) + \
+           hash(str(self.to_end)) + \
+           hash(str(self.overlap)) + \
+           hash(str(self.overlap.complement()))
 
   def is_eql(self, other):
     """
